@@ -674,9 +674,64 @@ func (b *TB) ToIntTrunc(x *Term) *Term {
 	if x.op == "to_real" {
 		return x.args[0]
 	}
+	// an integer-valued expression (sums / products / ite over integer constants and converted
+	// integers, e.g. a count of 0/1 indicators) is converted structurally: the query stays linear
+	// integer arithmetic instead of mixing to_int with real ite terms
+	if b.intValued(x, 0) {
+		return b.asInt(x)
+	}
 	fl := b.app("to_int", SInt, x)
 	nfl := b.INeg(b.app("to_int", SInt, b.RNeg(x)))
 	return b.Ite(b.RLe(b.Rat(ratZero), x), fl, nfl)
+}
+
+func (b *TB) intValued(t *Term, depth int) bool {
+	if depth > 64 {
+		return false
+	}
+	switch t.op {
+	case "rconst":
+		return t.rat.IsInt() && t.rat.Num().IsInt64()
+	case "to_real":
+		return true
+	case "ite":
+		return b.intValued(t.args[1], depth+1) && b.intValued(t.args[2], depth+1)
+	case "radd", "rmul":
+		if len(t.args) > 4096 {
+			return false
+		}
+		for _, a := range t.args {
+			if !b.intValued(a, depth+1) {
+				return false
+			}
+		}
+		return true
+	}
+	return false
+}
+
+func (b *TB) asInt(t *Term) *Term {
+	switch t.op {
+	case "rconst":
+		return b.Int(t.rat.Num().Int64())
+	case "to_real":
+		return t.args[0]
+	case "ite":
+		return b.Ite(t.args[0], b.asInt(t.args[1]), b.asInt(t.args[2]))
+	case "radd":
+		acc := b.asInt(t.args[0])
+		for _, a := range t.args[1:] {
+			acc = b.IAdd(acc, b.asInt(a))
+		}
+		return acc
+	case "rmul":
+		acc := b.asInt(t.args[0])
+		for _, a := range t.args[1:] {
+			acc = b.IMul(acc, b.asInt(a))
+		}
+		return acc
+	}
+	panic("asInt: not integer-valued: " + t.op)
 }
 
 /* ---------- printing ---------- */
